@@ -1175,3 +1175,282 @@ Proof.
   intros Hpre. rewrite payload_skip by assumption. cbn [payload]. rewrite script_payload_magic.
   destruct (collect_shape (length r) r (le_n _)) as (p & -> & Hs). cbn [bind]. eauto.
 Qed.
+(* ================= Part D: WF is tight ================= *)
+(* every runestone that decipher returns is well-formed and has sorted edicts,
+   so enciphering it and deciphering again gives it back unchanged *)
+
+Lemma integers_bound : forall fuel bs ints,
+  integers fuel bs = Ok (Some ints) -> Forall (fun n => n < P128) ints.
+Proof.
+  induction fuel as [|f IH]; intros bs ints H.
+  - destruct bs as [|b bs']; cbn [integers] in H; [inversion H; constructor|].
+    destruct (decode (b :: bs')) as [e|[n k]]; discriminate.
+  - destruct bs as [|b bs']; cbn [integers] in H; [inversion H; constructor|].
+    destruct (decode (b :: bs')) as [e|[n k]] eqn:E; [discriminate|].
+    destruct (integers f (skipn (N.to_nat k) (b :: bs'))) as [[l|]|e|t] eqn:Er; cbn [bind] in H; try discriminate.
+    inversion H; subst. apply decode_exact in E. destruct E as (j & _ & _ & _ & _ & _ & _ & Hn).
+    constructor; [assumption|]. eapply IH. exact Er.
+Qed.
+
+Lemma id_next_inv i b t nx : wf_id i = true -> id_next i b t = Some nx ->
+  wf_id nx = true /\ id_leb i nx = true.
+Proof.
+  destruct i as [ib it]. unfold wf_id, id_next, to_u64, to_u32, checked_add, id_new, id_leb. cbn [block tx].
+  intros Hi H.
+  destruct (N.leb_spec b U64_MAX); [|discriminate].
+  destruct (N.leb_spec (ib + b) U64_MAX); [|discriminate].
+  destruct (N.eqb_spec b 0).
+  - destruct (N.leb_spec t U32_MAX); [|discriminate].
+    destruct (N.leb_spec (it + t) U32_MAX); [|discriminate].
+    destruct (andb (N.eqb (ib + b) 0) (N.ltb 0 (it + t))) eqn:E; [discriminate|].
+    inversion H; subst nx. cbn [block tx]. split; lia.
+  - destruct (N.leb_spec t U32_MAX); [|discriminate].
+    destruct (andb (N.eqb (ib + b) 0) (N.ltb 0 t)) eqn:E; [discriminate|].
+    inversion H; subst nx. cbn [block tx]. split; lia.
+Qed.
+
+Lemma edicts_from_inv n_out : forall k ints i es f, (length ints <= k)%nat ->
+  wf_id i = true -> Forall (fun n => n < P128) ints ->
+  edicts_from n_out i ints = Ok (es, f) ->
+  Forall (fun e => wf_edict n_out e = true) es /\ sorted_from i es.
+Proof.
+  induction k as [|k IH]; intros ints i es f Hl Hi HF H.
+  - destruct ints; [|cbn [length] in Hl; lia]. inversion H; subst. split; [constructor|exact I].
+  - destruct ints as [|b [|t [|a [|o rest]]]]; try (inversion H; subst; split; [constructor|exact I]).
+    cbn [edicts_from] in H. destruct (id_next i b t) as [nx|] eqn:En.
+    2:{ inversion H; subst. split; [constructor|exact I]. }
+    destruct (id_next_inv _ _ _ _ Hi En) as [Hnx Hle].
+    unfold edict_from_integers, to_u32 in H.
+    destruct (N.leb_spec o U32_MAX) as [Ho|Ho].
+    2:{ inversion H; subst. split; [constructor|exact I]. }
+    destruct (N.ltb U32_MAX n_out); [discriminate|].
+    destruct (N.ltb_spec n_out o) as [Hlt|Hge].
+    { inversion H; subst. split; [constructor|exact I]. }
+    cbn [bind] in H.
+    destruct (edicts_from n_out nx rest) as [[es' f']|e|p] eqn:Er; cbn [bind] in H; try discriminate.
+    inversion H; subst.
+    inversion HF as [|? ? _ HF1]; subst. inversion HF1 as [|? ? _ HF2]; subst.
+    inversion HF2 as [|? ? Ha HF3]; subst. inversion HF3 as [|? ? _ HF4]; subst.
+    destruct (IH rest nx es' f ltac:(cbn [length] in Hl; lia) Hnx HF4 Er) as [IH1 IH2].
+    split.
+    + constructor; [|assumption]. unfold wf_edict. cbn [id amount output]. rewrite Hnx.
+      unfold P128, U128_MAX in *. lia.
+    + cbn [sorted_from id]. split; assumption.
+Qed.
+
+Definition vals_ok (fs : fields) : Prop := Forall (fun p => snd p < P128) fs.
+
+Lemma from_integers_inv n_out : forall k ints m, (length ints <= k)%nat ->
+  Forall (fun n => n < P128) ints -> from_integers n_out ints = Ok m ->
+  vals_ok (m_fields m) /\ Forall (fun e => wf_edict n_out e = true) (m_edicts m) /\
+  sorted_from (mkId 0 0) (m_edicts m).
+Proof.
+  induction k as [|k IH]; intros ints m Hl HF H.
+  - destruct ints; [|cbn [length] in Hl; lia]. inversion H; subst. repeat split; constructor.
+  - destruct ints as [|tag rest]; [inversion H; subst; repeat split; constructor|].
+    cbn [from_integers] in H. inversion HF as [|? ? _ HF1]; subst.
+    destruct (N.eqb TAG_Body tag).
+    + destruct (edicts_from n_out (mkId 0 0) rest) as [[es f]|e|p] eqn:E; cbn [bind] in H; try discriminate.
+      inversion H; subst. cbn [m_fields m_edicts].
+      destruct (edicts_from_inv n_out (length rest) rest (mkId 0 0) _ _ (le_n _) eq_refl HF1 E) as [H1 H2].
+      split; [constructor|]. split; assumption.
+    + destruct rest as [|v rest']; [inversion H; subst; repeat split; constructor|].
+      inversion HF1 as [|? ? Hv HF2]; subst.
+      destruct (from_integers n_out rest') as [m'|e|p] eqn:E; cbn [bind] in H; try discriminate.
+      inversion H; subst. cbn [m_fields m_edicts].
+      destruct (IH rest' m' ltac:(cbn [length] in Hl; lia) HF2 E) as (H1 & H2 & H3).
+      split; [constructor; assumption|]. split; assumption.
+Qed.
+
+Lemma get_first_ok t fs v : vals_ok fs -> get_first t fs = Some v -> v < P128.
+Proof.
+  induction fs as [|[t' v'] r IH]; intros Hok H; [discriminate|]. inversion Hok; subst.
+  cbn [get_first] in H. destruct (N.eqb t' t); [inversion H; subst; assumption|auto].
+Qed.
+
+Lemma remove_first_ok t fs : vals_ok fs -> vals_ok (remove_first t fs).
+Proof.
+  induction fs as [|[t' v'] r IH]; intros Hok; [constructor|]. inversion Hok; subst.
+  cbn [remove_first]. destruct (N.eqb t' t); [assumption|]. constructor; [assumption|apply IH; assumption].
+Qed.
+
+Definition from_value {T} (w : N -> option T) (o : option T) : Prop :=
+  match o with Some x => exists v, v < P128 /\ w v = Some x | None => True end.
+
+Lemma take1_inv {T} t (w : N -> option T) fs o fs' : vals_ok fs -> take1 t w fs = (o, fs') ->
+  vals_ok fs' /\ from_value w o.
+Proof.
+  intros Hok H. unfold take1 in H. destruct (get_first t fs) as [v|] eqn:E.
+  - destruct (w v) as [x|] eqn:Ew; inversion H; subst.
+    + split; [apply remove_first_ok; assumption|]. exists v. split; [eapply get_first_ok; eassumption|assumption].
+    + split; [assumption|exact I].
+  - inversion H; subst. split; [assumption|exact I].
+Qed.
+
+Lemma take2_inv {T} t (w : N -> N -> option T) fs o fs' : vals_ok fs -> take2 t w fs = (o, fs') ->
+  vals_ok fs' /\ match o with Some x => exists a b, w a b = Some x | None => True end.
+Proof.
+  intros Hok H. unfold take2 in H. destruct (get_first t fs) as [v0|]; [|inversion H; subst; auto].
+  destruct (get_first t (remove_first t fs)) as [v1|]; [|inversion H; subst; auto].
+  destruct (w v0 v1) as [x|] eqn:Ew; inversion H; subst; [|auto].
+  split; [do 2 apply remove_first_ok; assumption|eauto].
+Qed.
+
+Lemma opt_all_from (w : N -> option N) (p : N -> bool) o :
+  from_value w o -> (forall v x, v < P128 -> w v = Some x -> p x = true) -> opt_all p o = true.
+Proof. destruct o as [x|]; [|reflexivity]. intros (v & Hv & Hw) Hp. eapply Hp; eassumption. Qed.
+
+Lemma w_any_p v x : v < P128 -> w_any v = Some x -> u128b x = true.
+Proof. unfold w_any, u128b, P128, U128_MAX. intros H E. inversion E; subst. lia. Qed.
+
+Lemma to_u64_p v x : v < P128 -> to_u64 v = Some x -> u64b x = true.
+Proof. unfold to_u64, u64b. intros _ E. destruct (N.leb v U64_MAX) eqn:L; inversion E; subst. assumption. Qed.
+
+Lemma w_divisibility_p v x : v < P128 -> w_divisibility v = Some x -> N.leb x MAX_DIVISIBILITY = true.
+Proof.
+  unfold w_divisibility, to_u8. intros _ E. destruct (N.leb v U8_MAX); [|discriminate].
+  destruct (N.leb v MAX_DIVISIBILITY) eqn:L; inversion E; subst. assumption.
+Qed.
+
+Lemma w_spacers_p v x : v < P128 -> w_spacers v = Some x -> N.leb x MAX_SPACERS = true.
+Proof.
+  unfold w_spacers, to_u32. intros _ E. destruct (N.leb v U32_MAX); [|discriminate].
+  destruct (N.leb v MAX_SPACERS) eqn:L; inversion E; subst. assumption.
+Qed.
+
+Lemma w_symbol_p v x : v < P128 -> w_symbol v = Some x -> is_char x = true.
+Proof.
+  unfold w_symbol, to_u32. intros _ E. destruct (N.leb v U32_MAX); [|discriminate].
+  destruct (is_char v) eqn:L; inversion E; subst. assumption.
+Qed.
+
+Lemma w_pointer_p n v x : v < P128 -> w_pointer n v = Some x -> N.ltb x n = true.
+Proof.
+  unfold w_pointer, to_u32. intros _ E. destruct (N.leb v U32_MAX); [|discriminate].
+  destruct (N.ltb v n) eqn:L; inversion E; subst. assumption.
+Qed.
+
+Lemma w_mint_p a b i : w_mint a b = Some i -> wf_id i = true.
+Proof.
+  unfold w_mint, to_u64, to_u32, id_new, wf_id. intros E.
+  destruct (N.leb_spec a U64_MAX); [|discriminate]. destruct (N.leb_spec b U32_MAX); [|discriminate].
+  destruct (andb (N.eqb a 0) (N.ltb 0 b)) eqn:V; [discriminate|]. inversion E; subst. cbn [block tx]. lia.
+Qed.
+
+Lemma parse_terms_inv fs t fs' : vals_ok fs -> parse_terms fs = (t, fs') ->
+  wf_terms t = true /\ vals_ok fs'.
+Proof.
+  intros H0 H. unfold parse_terms in H.
+  destruct (take1 TAG_Cap w_any fs) as [cp f1] eqn:E1. destruct (take1_inv _ _ _ _ _ H0 E1) as [H1 V1].
+  destruct (take1 TAG_HeightStart to_u64 f1) as [hs f2] eqn:E2. destruct (take1_inv _ _ _ _ _ H1 E2) as [H2 V2].
+  destruct (take1 TAG_HeightEnd to_u64 f2) as [he f3] eqn:E3. destruct (take1_inv _ _ _ _ _ H2 E3) as [H3 V3].
+  destruct (take1 TAG_Amount w_any f3) as [am f4] eqn:E4. destruct (take1_inv _ _ _ _ _ H3 E4) as [H4 V4].
+  destruct (take1 TAG_OffsetStart to_u64 f4) as [os f5] eqn:E5. destruct (take1_inv _ _ _ _ _ H4 E5) as [H5 V5].
+  destruct (take1 TAG_OffsetEnd to_u64 f5) as [oe f6] eqn:E6. destruct (take1_inv _ _ _ _ _ H5 E6) as [H6 V6].
+  inversion H; subst. split; [|assumption]. unfold wf_terms.
+  cbn [t_amount t_cap t_height_start t_height_end t_offset_start t_offset_end].
+  rewrite (opt_all_from _ _ _ V4 w_any_p), (opt_all_from _ _ _ V1 w_any_p),
+    (opt_all_from _ _ _ V2 to_u64_p), (opt_all_from _ _ _ V3 to_u64_p),
+    (opt_all_from _ _ _ V5 to_u64_p), (opt_all_from _ _ _ V6 to_u64_p). reflexivity.
+Qed.
+
+(* wf_etching without the supply clause *)
+Definition wf_etching_fields (e : Etching) : bool :=
+  andb (andb (andb (opt_all (fun v => N.leb v MAX_DIVISIBILITY) (divisibility e)) (opt_all u128b (premine e)))
+             (andb (opt_all u128b (rune e)) (opt_all (fun v => N.leb v MAX_SPACERS) (spacers e))))
+       (andb (opt_all is_char (symbol e)) (match terms e with Some t => wf_terms t | None => true end)).
+
+Lemma parse_etching_inv flags fs e flags' fs' : vals_ok fs -> parse_etching flags fs = (e, flags', fs') ->
+  wf_etching_fields e = true /\ vals_ok fs'.
+Proof.
+  intros H0 H. unfold parse_etching in H.
+  destruct (take1 TAG_Divisibility w_divisibility fs) as [dv f1] eqn:E1. destruct (take1_inv _ _ _ _ _ H0 E1) as [H1 V1].
+  destruct (take1 TAG_Premine w_any f1) as [pm f2] eqn:E2. destruct (take1_inv _ _ _ _ _ H1 E2) as [H2 V2].
+  destruct (take1 TAG_Rune w_any f2) as [rn f3] eqn:E3. destruct (take1_inv _ _ _ _ _ H2 E3) as [H3 V3].
+  destruct (take1 TAG_Spacers w_spacers f3) as [sp f4] eqn:E4. destruct (take1_inv _ _ _ _ _ H3 E4) as [H4 V4].
+  destruct (take1 TAG_Symbol w_symbol f4) as [sy f5] eqn:E5. destruct (take1_inv _ _ _ _ _ H4 E5) as [H5 V5].
+  destruct (flag_take FLAG_Terms flags) as [ht fl1].
+  assert (Ht : forall tm f6, (if ht then let '(t, fs0) := parse_terms f5 in (Some t, fs0) else (None, f5)) = (tm, f6) ->
+               match tm with Some t => wf_terms t | None => true end = true /\ vals_ok f6).
+  { intros tm f6 Et. destruct ht.
+    - destruct (parse_terms f5) as [t f6'] eqn:Ep. inversion Et; subst.
+      destruct (parse_terms_inv _ _ _ H5 Ep). auto.
+    - inversion Et; subst. auto. }
+  destruct (if ht then let '(t, fs0) := parse_terms f5 in (Some t, fs0) else (None, f5)) as [tm f6] eqn:Et.
+  destruct (Ht _ _ eq_refl) as [Htm H6].
+  destruct (flag_take FLAG_Turbo fl1) as [tb fl2]. inversion H; subst. split; [|assumption].
+  unfold wf_etching_fields. cbn [divisibility premine rune spacers symbol terms].
+  rewrite (opt_all_from _ _ _ V1 w_divisibility_p), (opt_all_from _ _ _ V2 w_any_p),
+    (opt_all_from _ _ _ V3 w_any_p), (opt_all_from _ _ _ V4 w_spacers_p),
+    (opt_all_from _ _ _ V5 w_symbol_p), Htm. reflexivity.
+Qed.
+
+Lemma or_flaw_None f c g : or_flaw f c g = None -> f = None /\ c = false.
+Proof. destruct f; [discriminate|]. destruct c; [discriminate|]. auto. Qed.
+
+Lemma parse_message_inv n_out m : vals_ok (m_fields m) ->
+  p_flaw (parse_message n_out m) = None ->
+  let r := p_candidate (parse_message n_out m) in
+  m_flaw m = None /\ edicts r = m_edicts m /\
+  match etching r with Some e => wf_etching e | None => true end = true /\
+  match mint r with Some i => wf_id i | None => true end = true /\
+  opt_all (fun p => N.ltb p n_out) (pointer r) = true.
+Proof.
+  intros H0. unfold parse_message.
+  destruct (take1 TAG_Flags w_any (m_fields m)) as [fl f1] eqn:E1. destruct (take1_inv _ _ _ _ _ H0 E1) as [H1 _].
+  destruct (flag_take FLAG_Etching (default0 fl)) as [is_e flags].
+  assert (He : forall et fl' f2,
+     (if is_e then let '(e, flags0, fs0) := parse_etching flags f1 in (Some e, flags0, fs0) else (None, flags, f1)) = (et, fl', f2) ->
+     match et with Some e => wf_etching_fields e | None => true end = true /\ vals_ok f2).
+  { intros et fl' f2 Ee. destruct is_e.
+    - destruct (parse_etching flags f1) as [[e fl0] f0] eqn:Ep. inversion Ee; subst.
+      destruct (parse_etching_inv _ _ _ _ _ H1 Ep). auto.
+    - inversion Ee; subst. auto. }
+  destruct (if is_e then let '(e, flags0, fs0) := parse_etching flags f1 in (Some e, flags0, fs0) else (None, flags, f1))
+    as [[et fl'] f2] eqn:Ee.
+  destruct (He _ _ _ eq_refl) as [Het H2].
+  destruct (take2 TAG_Mint w_mint f2) as [mt f3] eqn:E3. destruct (take2_inv _ _ _ _ _ H2 E3) as [H3 V3].
+  destruct (take1 TAG_Pointer (w_pointer n_out) f3) as [pt f4] eqn:E4. destruct (take1_inv _ _ _ _ _ H3 E4) as [H4 V4].
+  cbn [p_flaw p_candidate edicts etching mint pointer]. intros Hf.
+  apply or_flaw_None in Hf. destruct Hf as [Hf _].
+  apply or_flaw_None in Hf. destruct Hf as [Hf _].
+  apply or_flaw_None in Hf. destruct Hf as [Hf Hsup].
+  split; [assumption|]. split; [reflexivity|]. split; [|split].
+  - destruct et as [e|]; [|reflexivity]. unfold wf_etching. unfold wf_etching_fields in Het.
+    apply andb_prop in Het. destruct Het as [Ha Hb]. rewrite Ha.
+    apply andb_prop in Hb. destruct Hb as [Hb1 Hb2]. rewrite Hb1, Hb2.
+    destruct (supply e); [reflexivity|discriminate].
+  - destruct mt as [i|]; [|reflexivity]. destruct V3 as (a & b & Hw). eapply w_mint_p. exact Hw.
+  - apply (opt_all_from _ _ _ V4). intros v x Hv. apply w_pointer_p. assumption.
+Qed.
+
+Lemma sorted_sort_id : forall l p, sorted_from p l -> sort_edicts l = l.
+Proof.
+  induction l as [|e r IH]; intros p H; [reflexivity|]. cbn [sorted_from] in H. destruct H as [_ Hr].
+  cbn [sort_edicts]. rewrite (IH _ Hr). destruct r as [|x r']; [reflexivity|].
+  cbn [sorted_from] in Hr. destruct Hr as [Hle _]. cbn [insert_edict]. rewrite Hle. reflexivity.
+Qed.
+
+(* every runestone returned by decipher is well-formed for that transaction and
+   has its edicts sorted *)
+Theorem decipher_wf outs r : len outs <= U32_MAX ->
+  decipher outs = Ok (Some (ARunestone r)) ->
+  wf_runestone (len outs) r = true /\ sort_edicts (edicts r) = edicts r.
+Proof.
+  intros Hn H. unfold decipher in H.
+  destruct (payload outs) as [[[bs|f]|]|e|t]; cbn [bind] in H; try discriminate.
+  destruct (integers (length bs) bs) as [[ints|]|e|t] eqn:Ei; cbn [bind] in H; try discriminate.
+  destruct (from_integers (len outs) ints) as [m|e|t] eqn:Em; cbn [bind] in H; try discriminate.
+  pose proof (integers_bound _ _ _ Ei) as Hb.
+  destruct (from_integers_inv _ (length ints) ints m (le_n _) Hb Em) as (Hv & Hes & Hs).
+  unfold artifact_of in H.
+  destruct (p_flaw (parse_message (len outs) m)) eqn:Ef; [discriminate|].
+  inversion H as [Hr]. clear H.
+  destruct (parse_message_inv (len outs) m Hv Ef) as (_ & Hed & Het & Hmt & Hpt).
+  rewrite Hr in *. split.
+  - unfold wf_runestone. rewrite Het, Hmt, Hpt, Hed.
+    replace (N.leb (len outs) U32_MAX) with true by (symmetry; apply N.leb_le; assumption).
+    replace (forallb (wf_edict (len outs)) (m_edicts m)) with true; [reflexivity|].
+    symmetry. apply forallb_forall. apply Forall_forall. exact Hes.
+  - rewrite Hed. eapply sorted_sort_id. exact Hs.
+Qed.
